@@ -80,10 +80,64 @@ def nontrivial(case, truth, res, mask, n):
     return False
 
 
+def directed_shapes(ctx):
+    """Preconditions judge the values the body receives also for the call shapes of C05 that are easy to get wrong:
+    a keyword named like a positional-only parameter (absorbed by **kwargs), positionals beyond the named parameters,
+    keyword-only parameters, defaults - as function and method, def and async def."""
+    import icontract
+    from vf.progmodel.run import drive
+
+    entered = []
+
+    def build(is_async, as_method):
+        src = []
+        ind = "    " if as_method else ""
+        if as_method:
+            src.append("class K:")
+        for name, params in (("a", "x, /, **kw"), ("b", "x, *rest, k=0"), ("c", "x=7, /, y=8, *, k=9, **kw")):
+            p = ("self, " if as_method else "") + params
+            src.append("%s@icontract.require(positive, 'x must be positive')" % ind)
+            src.append("%s%sdef %s(%s):" % (ind, "async " if is_async else "", name, p))
+            src.append("%s    entered.append(x)" % ind)
+            src.append("%s    return x" % ind)
+        def positive(x):
+            return x > 0
+
+        g = {"icontract": icontract, "entered": entered, "positive": positive}
+        exec("\n".join(src), g)
+        return g["K"]() if as_method else type("NS", (), {k: staticmethod(g[k]) for k in "abc"})
+
+    calls = [("a", (1,), {"x": -5}, True), ("a", (-1,), {"x": 5}, False), ("a", (1,), {"x": -5, "z": 0}, True),
+             ("b", (1, -2, -3), {}, True), ("b", (-1, 2, 3), {"k": 4}, False), ("b", (2,), {"k": -1}, True),
+             ("c", (), {}, True), ("c", (-1,), {"x": 3}, False), ("c", (), {"x": -3}, True), ("c", (5, 6), {"k": -1, "y2": 0}, True)]
+    for is_async in (False, True):
+        for as_method in (False, True):
+            obj = build(is_async, as_method)
+            for i, (fname, args, kwargs, accept) in enumerate(calls):
+                label = "%s%s/%s%r%r" % ("async " if is_async else "", "method" if as_method else "function", fname, args, kwargs)
+                del entered[:]
+                try:
+                    r = getattr(obj, fname)(*args, **kwargs)
+                    if is_async:
+                        r = drive(r)
+                    got = "accepted"
+                except icontract.ViolationError:
+                    got = "rejected"
+                except BaseException as e:  # noqa
+                    got = "%s: %s" % (type(e).__name__, e)
+                ctx.case(["directed-shape", is_async, as_method, i], True, sample={"directed": label, "expected": "accepted" if accept else "rejected"})
+                want = "accepted" if accept else "rejected"
+                if got != want or (accept and len(entered) != 1) or (not accept and entered):
+                    ctx.fail("directed-shape|%s|%s" % ("async" if is_async else "sync", "method" if as_method else "function"),
+                             {"directed": "shapes"}, "%s: the precondition x > 0 judged on the value the body receives says %s; the "
+                             "call was %s (bodies entered with x = %r)" % (label, want, got, entered))
+
+
 def directed(ctx, only=None):
     """The enumerated two-base matrix of C04 (who provides the member with/without preconditions, in both orders),
-    judged with C01's projection."""
+    judged with C01's projection; plus the directed call shapes."""
     from vf.props import c04
 
+    directed_shapes(ctx)
     for case in c04.multi_base_matrix():
         D.run_one(ctx, case, JUDGE, nontrivial=nontrivial)
